@@ -242,6 +242,16 @@ func init() {
 					"ambigimp/types.go": "package ambigimp\n\ntype S struct{ A string }\ntype D struct {\n\tA    string\n\tSafe string\n}\n",
 				}})
 			*nBases++
+			// a blank import whose last path element clashes with the declared name of an unnamed import (go-foo declares
+			// foo): which of the two paths a notation's "foo." means must not depend on a map's iteration order
+			bases = append(bases, GCase{Name: "lateclash", Setup: "lateclash/setup.go", Profile: "simple", Features: []string{"blank-import-of-a-same-named-package"},
+				Files: map[string]string{
+					"lateclash/setup.go":     "//go:build convergen\n\npackage lateclash\n\nimport (\n\t\"exp/lateclash/go-foo\"\n\t_ \"exp/lateclash/x/foo\"\n)\n\nvar _ = foo.Upper\n\ntype Convergen interface {\n\t// :conv foo.Upper A\n\tConv(*S) *D\n}\n",
+					"lateclash/types.go":     "package lateclash\n\ntype S struct{ A string }\ntype D struct{ A string }\n",
+					"lateclash/go-foo/foo.go": "package foo\n\nfunc Upper(s string) string { return s + \"!\" }\n",
+					"lateclash/x/foo/foo.go":  "package foo\n\nvar Twin = 1\n",
+				}})
+			*nBases++
 		}
 		if *prop == "C15" {
 			// a module whose go.mod has no go directive: whatever lets the go command touch go.mod or go.sum shows here
